@@ -293,12 +293,34 @@ mod axv_types {
         }
     }
 
-    //@ob [C05:arith.non_numeric_is_error] level=proved text="arithmetic with a Null or Bool operand is an error value, never a number"
+    // one harness per operation (a single harness over the four calls took 146 s here and ran into the 300 s box of the quick tier on a slower machine)
+    //@ob [C05:arith.non_numeric_is_error.add] level=proved text="NULL/BOOLEAN + integer is an error value, never a number"
     #[kani::proof]
-    fn arith_non_numeric_is_error() {
+    fn arith_non_numeric_is_error_add() {
         let a = if kani::any() { DataType::Null } else { DataType::Bool(Bool(kani::any())) };
         let b = any_int32();
-        assert!(a.add(&b).is_err() && b.add(&a).is_err() && a.mul(&b).is_err() && b.sub(&a).is_err());
+        assert!(a.add(&b).is_err());
+    }
+    //@ob [C05:arith.non_numeric_is_error.add_commuted] level=proved text="integer + NULL/BOOLEAN is an error value, never a number"
+    #[kani::proof]
+    fn arith_non_numeric_is_error_add_commuted() {
+        let a = if kani::any() { DataType::Null } else { DataType::Bool(Bool(kani::any())) };
+        let b = any_int32();
+        assert!(b.add(&a).is_err());
+    }
+    //@ob [C05:arith.non_numeric_is_error.mul] level=proved text="NULL/BOOLEAN * integer is an error value, never a number"
+    #[kani::proof]
+    fn arith_non_numeric_is_error_mul() {
+        let a = if kani::any() { DataType::Null } else { DataType::Bool(Bool(kani::any())) };
+        let b = any_int32();
+        assert!(a.mul(&b).is_err());
+    }
+    //@ob [C05:arith.non_numeric_is_error.sub] level=proved text="integer - NULL/BOOLEAN is an error value, never a number"
+    #[kani::proof]
+    fn arith_non_numeric_is_error_sub() {
+        let a = if kani::any() { DataType::Null } else { DataType::Bool(Bool(kani::any())) };
+        let b = any_int32();
+        assert!(b.sub(&a).is_err());
     }
 
     // ------------------------------------------------------------------ VarInt codec (loop bound 10 = encoded width of 64 bits)
